@@ -212,6 +212,7 @@ static void locator(sb *b, xmlNodePtr n) {
     /* merged index among siblings */
     long idx = 0; xmlNodePtr c = n->parent ? n->parent->children : NULL; int prev_text = 0;
     for (; c; c = c->next) {
+        if (c->type == XML_DTD_NODE) continue; /* not a node of the XPath data model */
         int t = is_textish(c);
         if (c == n) { if (t && prev_text) idx--; break; }
         if (t) { if (!prev_text) idx++; prev_text = 1; } else { idx++; prev_text = 0; }
